@@ -1463,6 +1463,123 @@ def _guard_h(ctx, site, key, h, fn):
                       found_input=True)
 
 
+# ---- time scales and non-uniform time lists -----------------------------
+SCALES = [1e-9, 1e-6, 1e-3, 1.0, 1e3, 1e6]
+
+
+def gen_timescale_case(rng, kind):
+    """A system in natural units and a non-uniform increasing time list whose
+    consecutive steps are equal, nearly equal (last ulps, 1e-9, 1e-6 relative)
+    and wildly different (x10, /7, x3)."""
+    N = rng.choice([2, 3]) if kind == "me" else rng.choice([2, 3, 4])
+    H = _herm(rng, N, 1) * 1.5
+    cops = []
+    if kind == "me":
+        cops = [np.triu(_herm(rng, N, 2), 1) for _ in range(rng.choice([1, 2]))]
+    v = np.array([complex(rng.gauss(0, 1), rng.gauss(0, 1)) for _ in range(N)])
+    v = v / np.linalg.norm(v)
+    d = rng.choice([0.25, 0.5, 1.0])
+    steps = [d, d, d * (1 + 1e-6), d * (1 + 2.0 ** -50), d * (1 - 1e-6), 3 * d, d / 7, d,
+             d * (1 + 1e-9), 2 * d, d * (1 + 3e-6), 10 * d / 4, d]
+    head, tail = steps[:2], steps[2:]
+    rng.shuffle(tail)
+    steps = head + tail[:rng.choice([6, 8])]
+    t0 = rng.choice([0.0, 0.0, 0.3])
+    tl = [t0]
+    for x in steps:
+        tl.append(tl[-1] + x)
+    return {"kind": kind, "N": N, "H": H, "cops": cops, "psi": v, "tlist": tl}
+
+
+def ts_to_json(c):
+    def m(a):
+        return [[[float(v.real), float(v.imag)] for v in r] for r in np.atleast_2d(a)]
+    return {"kind": c["kind"], "N": c["N"], "H": m(c["H"]), "cops": [m(x) for x in c["cops"]],
+            "psi": m(c["psi"]), "tlist": [float(t).hex() for t in c["tlist"]]}
+
+
+def ts_from_json(d):
+    def m(a):
+        return np.array([[complex(v[0], v[1]) for v in r] for r in a])
+    return {"kind": d["kind"], "N": d["N"], "H": m(d["H"]), "cops": [m(x) for x in d["cops"]],
+            "psi": m(d["psi"]).reshape(-1), "tlist": [float.fromhex(t) for t in d["tlist"]]}
+
+
+def check_timescale(c, method, scale):
+    """The same physics with time multiplied by `scale` and the generator
+    divided by it: every stored state must be the exact state at that output
+    time (expm in natural units)."""
+    import qutip
+    import scipy.linalg as sl
+    N, kind = c["N"], c["kind"]
+    tl_nat = c["tlist"]
+    tl = [t * scale for t in tl_nat]
+    Hs = c["H"] / scale
+    opts = _opts(method, {"store_states": True})
+    if method == "krylov":
+        # options that carry a time dimension are rescaled with the physics
+        opts.update(min_step=1e-5 * scale, max_step=1e5 * scale)
+    psi = c["psi"].reshape(N, 1)
+    if kind == "se":
+        res = qutip.sesolve(qutip.Qobj(Hs), qutip.Qobj(psi), tl, options=opts)
+
+        def exact(k):
+            # exact in the rescaled problem: generator Hs over the elapsed
+            # rescaled time (the same numbers the solver is given)
+            return sl.expm(-1j * Hs * (tl[k] - tl[0])) @ psi
+    else:
+        cs = [x / np.sqrt(scale) for x in c["cops"]]
+        I = np.eye(N)
+        L = -1j * (np.kron(I, Hs) - np.kron(Hs.T, I))
+        for x in cs:
+            cd = x.conj().T @ x
+            L = L + np.kron(x.conj(), x) - 0.5 * np.kron(I, cd) - 0.5 * np.kron(cd.T, I)
+        rho0 = psi @ psi.conj().T
+        res = qutip.mesolve(qutip.Qobj(Hs), qutip.Qobj(rho0), tl, c_ops=[qutip.Qobj(x) for x in cs],
+                            options=opts)
+
+        def exact(k):
+            return (sl.expm(L * (tl[k] - tl[0])) @ rho0.reshape(-1, 1, order="F")).reshape(N, N, order="F")
+    bad = []
+    for k in range(len(tl)):
+        ref = exact(k)
+        err = np.linalg.norm(res.states[k].full() - ref)
+        tol = (1e-9 if kind == "se" else 2e-7) if method == "diag" else _htol(method, False, ref)
+        if not err <= tol:
+            bad.append(("state-vs-expm-at-output-time",
+                        "%s, method %s, time scale %g: state at output %d (t=%.17g, step %.17g after "
+                        "step %.17g) differs from expm by %.2e"
+                        % ("sesolve" if kind == "se" else "mesolve", method, scale, k, tl[k],
+                           tl[k] - tl[k - 1] if k else 0.0, tl[k - 1] - tl[k - 2] if k > 1 else 0.0, err)))
+            break
+    return bad
+
+
+def run_timescale_oracle(ctx, rng, nsys):
+    dist = {"runs": 0, "scales": SCALES}
+    for _ in range(nsys):
+        for kind, methods in (("se", SE_METHODS), ("me", ME_METHODS)):
+            c = gen_timescale_case(rng, kind)
+            for method in methods:
+                for scale in SCALES:
+                    key = [method, "scale=%g" % scale]
+                    try:
+                        bad = check_timescale(c, method, scale)
+                    except Exception as e:      # noqa
+                        bad = [("raises", "%s: %s" % (type(e).__name__, str(e)[:300]))]
+                    ctx.count_case(("timescale", kind, tuple(key), json.dumps(ts_to_json(c), sort_keys=True)),
+                                   nontrivial=True)
+                    dist["runs"] += 1
+                    for sig, what in bad:
+                        ctx.violation("oracle:timescale:%s" % ("sesolve" if kind == "se" else "mesolve"),
+                                      key + [sig], what,
+                                      {"kind": "timescale", "method": method, "scale": scale,
+                                       "case": ts_to_json(c)}, found_input=True)
+    ctx.cov["input_distribution"]["timescale_runs"] = dist
+    ctx.log("time-scale oracle: %d runs (every method x scales %s, non-uniform time lists)"
+            % (dist["runs"], SCALES))
+
+
 def run_oracle(ctx, rng, budget):
     """budget: number of random systems"""
     import qutip
@@ -1693,6 +1810,7 @@ def run(ctx):
     krylov_norm_witness(ctx)
     krylov_identity_witness(ctx)
     run_history_oracle(ctx, rng, 1 if ctx.quick else 6)
+    run_timescale_oracle(ctx, rng, 1 if ctx.quick else 5)
     ctx.cov["explanation"] = (
         "Proved (all inputs): the RK kernel commutes with linear maps between state spaces "
         "(route agreement step by step), a step on y'=Ly is the kernel's own symbolic polynomial "
@@ -1747,6 +1865,10 @@ def replay(ctx, payload):
                 sg = payload["signature"]
                 ctx.violation(payload["site"], (sg[:-1] if isinstance(sg, list) else [d["method"]]) + [sig],
                               what, d)
+    elif kind == "timescale":
+        c = ts_from_json(d["case"])
+        for sig, what in check_timescale(c, d["method"], d["scale"]):
+            ctx.violation(payload["site"], payload["signature"][:-1] + [sig], what, d)
     elif kind == "krylov_norm_witness":
         krylov_norm_witness(ctx)
     elif kind == "krylov_identity_witness":
